@@ -7,6 +7,9 @@ environment.
   prove      coq/theory/History.v (hand-written, generic): history_independent,
              public_history_independent, world_history_independent, copy_isolated,
              history_refuted, exec_sound (verified abstract interpreter), cached_equals_uncached
+             coq/props/C16xform.v (hand-written, generic): doit_transparent, default_mismatch_refuted, xform_factors
+             (model of the doit() entry points of lcapy/transformer.py over calls with keyword options and defaults);
+             Gen/C16_xform.v: xform_transparent_<cls> / xform_refuted_<cls>_<opt> per transformer class
              Gen/C16_*.v (generated): per memoised key `cleared_<k>`, per public operation
              `op_<f>`, `progs_consistent`, `inv_lists_ok`, `c16_history_independent`;
              for keys that are NOT cleared the machine-checked refutation `refuted_<k>`
@@ -43,13 +46,23 @@ MANIFEST = {
             'change an object\'s data, and that a cached transform equals the uncached one.  The instance is regenerated from the '
             'source on every run: memoised attributes, what _invalidate clears, an abstract program of every function in the MRO of '
             'Circuit (checked by a Coq-verified abstract interpreter), transformer cache keys.  The model is evaluated inside Coq on '
-            'every explored session and must predict the real answers (fresh or which stale value), texts and filled slots.',
+            'every explored session and must predict the real answers (fresh or which stale value), texts and filled slots.  '
+            'Expression-level caches: a Coq model of the three doit() entry points of lcapy/transformer.py (evaluate bypass, cache flag, '
+            'look-up, store, post-processing) with doit_transparent (after ANY history of calls with any options a call returns what an empty '
+            'cache returns, provided every option the computation consults is in key() with the SAME default) and default_mismatch_refuted; '
+            'instantiated per transformer class (xform_transparent_<cls> / xform_refuted_<cls>_<option>) from the regenerated (option, default) '
+            'lists and the fail-closed translation of each doit() body.',
     'note': 'Trusted: Coq kernel/vm_compute; tools/tr_caches.py (AST -> tables/abstract programs; call resolution by name in the MRO, '
             'exceptions only where `raise`/try occur); the canonicalisers in tools/c16_ops.py; the fresh-interpreter oracle '
             '(forked from a just-imported interpreter, discrepancies re-confirmed in brand-new interpreters).  Public operations now include '
             'the public methods of the node/component objects a circuit hands out (Node.rename, Cpt.open_circuit, ...: obligations cbop_*), '
             'in-place modification of memoised values (queries_do_not_mutate_cache) and reassignment of process-wide switches that the analyses '
-            'read (env_switches_ok; the switch is part of the data identity in the explored sessions).  Not modelled: SubNetlist/MNA helper '
+            'read (env_switches_ok; the switch is part of the data identity in the explored sessions).  Transformer options: consulted = '
+            'kwargs.get/pop/[] sites and named parameters bound through a **kwargs splat in the methods of the class and its bases (passing '
+            '**options to a foreign method is Untranslatable; Ratfun(expr, z, **kwargs) in InverseZTransformer is a plain-name call and not followed); '
+            'None/False defaults are identified only where the value is provably used for its truth value; instance attributes read by the '
+            'computation must be assigned by check() (tstate_<cls>; conditional assignment inside check() is not distinguished); classes that '
+            'inherit key() (InverseFourier, InverseDFT) are covered through their base.  Not modelled: SubNetlist/MNA helper '
             'objects (never mutated), symbol assumptions (explored, not proved), objects after a mutator raised.',
     'technique': 'Coq proof (induction over histories, verified abstract interpretation of translated programs) + in-Coq evaluation of the '
                  'history model against stateful differential exploration with fresh-interpreter oracle and delta debugging',
@@ -129,6 +142,19 @@ class Gen:
             used = [u for u in t['used'] if u not in TR.KW_EXEMPT]
             out.append('Definition tk_%s : list nat * list nat := ([%s], [%s]).' % (
                 t['cls'], '; '.join(str(kw[u]) for u in used), '; '.join(str(kw[u]) for u in t['covered'])))
+        # options with the default under which they are consulted / listed in key(): interned
+        dflt = {}
+        self.dflt = dflt
+        for t in T.transformers:
+            for u in list(t['key_defaults']) + [p[0] for p in t['opt_pairs']]:
+                kw.setdefault(u, len(kw))
+            for d in list(t['key_defaults'].values()) + [p[1] for p in t['opt_pairs']]:
+                dflt.setdefault(d, len(dflt))
+        out.append('(* transformer caches, with defaults: (option, default) consulted by the computation / listed in key(); defaults interned %s *)' % json.dumps(dflt))
+        for t in T.transformers:
+            out.append('Definition tkd_%s : list (nat * nat) * list (nat * nat) := ([%s], [%s]).' % (
+                t['cls'], '; '.join('(%d, %d)' % (kw[u], dflt[d]) for u, d in t['opt_pairs']),
+                '; '.join('(%d, %d)' % (kw[u], dflt[d]) for u, d in sorted(t['key_defaults'].items()))))
         return '\n'.join(out) + '\n'
 
     def obligations(self):
@@ -168,13 +194,18 @@ class Gen:
             ob.append(('tkey_' + t['cls'], 'forallb (fun u => mem u (snd tk_%s)) (fst tk_%s) = true' % (t['cls'], t['cls']),
                        'vm_compute. reflexivity.', not t['missing'], 'transformkey:%s:%s' % (t['cls'], ','.join(t['missing']))))
             ob.append(('tkeyhead_' + t['cls'], '%s = true' % str(t['head_ok']).lower(), 'reflexivity.', t['head_ok'], 'transformkey:%s:head' % t['cls']))
+            mm = sorted({m['opt'] for m in t['default_mismatch']})
+            ob.append(('tkeydef_' + t['cls'], 'incl_pairs (fst tkd_%s) (snd tkd_%s) = true' % (t['cls'], t['cls']), 'vm_compute. reflexivity.',
+                       not mm, 'transformkey:%s:default:%s' % (t['cls'], ','.join(mm))))
+            ob.append(('tstate_' + t['cls'], '%s = true' % str(not t['state_bad']).lower(), 'reflexivity.', not t['state_bad'],
+                       'transformstate:%s:%s' % (t['cls'], ';'.join(t['state_bad'])[:120])))
         return ob
 
     def gen_files(self):
         T = self.T
         files = {}
         ob = self.obligations()
-        pre = HEADER % 'lcapy' + 'Require Import Gen.CachesGen.\n'
+        pre = HEADER % 'lcapy' + 'Require Import Gen.CachesGen Gen.C16xform.\n'
         good = [o for o in ob if o[3]]
         txt = [pre]
         for n, st, pf, _, _ in good:
@@ -208,6 +239,42 @@ Proof.
 Qed.
 Print Assumptions c16_history_independent.
 '''
+        xt = [pre,
+              '(* per transformer class: the regenerated option lists and the translated shape of its doit() instantiate the generic theorems *)']
+        for t in T.transformers:
+            c = t['cls']
+            hb, hf = str(t['doit_bypass']).lower(), str(t['doit_flag']).lower()
+            if not t['default_mismatch'] and not t['missing']:
+                xt.append('''Theorem xform_transparent_%s :
+  forall (Hd R O : Type) (f : Hd -> kwargs nat -> R) (post : Hd * kwargs nat -> R -> O) (noeval : Hd * kwargs nat -> O)
+         (keqb : Hd * list nat -> Hd * list nat -> bool),
+  (forall h k1 k2, (forall ud, In ud (fst tkd_%s) -> kget nat k1 ud = kget nat k2 ud) -> f h k1 = f h k2) ->
+  (forall a b, keqb a b = true -> a = b) ->
+  forall (cs : list (xcall Hd nat)) (c : xcall Hd nat),
+  fst (doit Hd nat R O (snd tkd_%s) f post noeval keqb %s %s c
+         (fold_left (fun t y => snd (doit Hd nat R O (snd tkd_%s) f post noeval keqb %s %s y t)) cs [])) = uncached Hd nat R O f post noeval %s c.
+Proof. intros. apply (doit_transparent Hd nat R O (fst tkd_%s)); auto. apply incl_pairs_sound. vm_compute. reflexivity. Qed.
+Print Assumptions xform_transparent_%s.''' % (c, c, c, hb, hf, c, hb, hf, hb, c, c))
+            for m in t['default_mismatch']:
+                u, dk, du = self.kw[m['opt']], self.dflt[m['key_default']], self.dflt[m['use_default']]
+                xt.append('''(* %s: key() lists option %s with default %s, %s consults it with default %s *)
+Theorem xform_refuted_%s_%s :
+  forall (Hd R O : Type) (f : Hd -> kwargs nat -> R) (post : Hd * kwargs nat -> R -> O) (noeval : Hd * kwargs nat -> O)
+         (keqb : Hd * list nat -> Hd * list nat -> bool), (forall a, keqb a a = true) ->
+  forall (h : Hd) (kw : kwargs nat),
+  let x1 := (h, kw_set nat kw %d (Some %d)) in let x0 := (h, kw_set nat kw %d None) in
+  %d <> %d /\\ kget nat (snd x1) (%d, %d) = %d /\\ kget nat (snd x0) (%d, %d) = %d /\\
+  fst (doit Hd nat R O (snd tkd_%s) f post noeval keqb %s %s (x0, (true, true))
+         (snd (doit Hd nat R O (snd tkd_%s) f post noeval keqb %s %s (x1, (true, true)) []))) = post x0 (fx Hd nat R f x1).
+Proof.
+  intros Hd R O f post noeval keqb Hr h kw x1 x0.
+  destruct (default_mismatch_refuted Hd nat R O (snd tkd_%s) f post noeval keqb Hr %d %d %d h kw %s %s) as [_ [A [B C]]].
+  - apply key_default_is_sound. vm_compute. reflexivity.
+  - split; [discriminate|]. split; [exact A|]. split; [exact B|exact C].
+Qed.
+Print Assumptions xform_refuted_%s_%s.''' % (c, m['opt'], m['key_default'], m['site'], m['use_default'], c, ident(m['opt']),
+                                             u, dk, u, dk, du, u, du, dk, u, du, du, c, hb, hf, c, hb, hf, c, u, dk, du, hb, hf, c, ident(m['opt'])))
+        files['C16_xform.v'] = '\n'.join(xt) + '\n'
         bad_keys = [k for k in T.key_order if k not in T.cleared]
         if bad_keys:
             txt = [pre, '(* memoised attributes that _invalidate does not clear: machine-checked witness histories *)']
@@ -260,7 +327,20 @@ XFORMS = [
     {'what': 'symbol', 'name': 'R1', 'kw': {'positive': False, 'real': True}},
     {'what': 'simplify', 'e': 'sqrt(R**2)'}, {'what': 'simplify', 'e': 'sqrt(R1**2) + abs(C)'},
     {'what': 'fourier', 'e': 'exp(-3*t)*u(t)'},
+    # the same expression under different options: the options are part of what a cached result may be reused for
+    {'what': 'ilt', 'e': '1/(s**2+3*s+2)', 'kw': {'damped_sin': True}}, {'what': 'ilt', 'e': '1/(s**2+3*s+2)'},
+    {'what': 'ilt', 'e': '1/(s**2+3*s+2)', 'kw': {'damped_sin': False}},
+    {'what': 'laplace', 'e': 'diff(x(t), t)', 'kw': {'zero_initial_conditions': False}}, {'what': 'laplace', 'e': 'diff(x(t), t)'},
+    {'what': 'laplace', 'e': 'diff(x(t), t)', 'kw': {'zero_initial_conditions': True}},
+    {'what': 'izt', 'e': 'z/(z-1/2)'}, {'what': 'izt', 'e': 'z/(z-1/2)', 'kw': {'causal': True}},
+    {'what': 'izt', 'e': 'z**2/(z**2+z/2+1/4)', 'kw': {'pairs': False}}, {'what': 'izt', 'e': 'z**2/(z**2+z/2+1/4)'},
+    {'what': 'izt', 'e': 'z**2/(z**2+z/2+1/4)', 'kw': {'pairs': True}}, {'what': 'zt', 'e': '(1/2)**n*u(n)'},
+    {'what': 'dft', 'e': 'delta(n-1)', 'kw': {'N': 4}}, {'what': 'dft', 'e': 'delta(n-1)', 'kw': {'N': 8}}, {'what': 'dft', 'e': 'delta(n-1)'},
+    {'what': 'idft', 'e': 'delta(k-1)', 'kw': {'N': 4}}, {'what': 'idft', 'e': 'delta(k-1)', 'kw': {'N': 8}},
+    {'what': 'dtft', 'e': 'delta(n-2)'}, {'what': 'dtft', 'e': 'delta(n-2)', 'kw': {'images': 2}}, {'what': 'dtft', 'e': 'u(n)*(1/2)**n'},
 ]
+XF_CLASS = {'ilt': 'InverseLaplaceTransformer', 'laplace': 'LaplaceTransformer', 'fourier': 'FourierTransformer', 'zt': 'ZTransformer',
+            'izt': 'InverseZTransformer', 'dft': 'DFTTransformer', 'idft': 'DFTTransformer', 'dtft': 'DTFTTransformer'}
 CHEAP_Q = ['complist', 'flags', 'switching', 'node_list', 'node_map', 'branch_list', 'enodes', 'cpts', 'nodes', 'lists', 'params', 'kinds']
 MID_Q = ['V', 'I', 'Vc', 'cg', 'sim', 'text']
 TOPO_Q = ['unconnected', 'nodes', 'nodes', 'wired_to', 'is_wired_to', 'across', 'in_series', 'in_parallel', 'loops', 'nodeinfo', 'enodes', 'node_map', 'cg']
@@ -1204,7 +1284,16 @@ def run(tier='quick', replay=None):
             if bad:
                 res.failed_obl.append(('gate', 'generated', '; '.join(bad)))
                 res.obligations += 1
-            coq_future = pool.submit(core.coqc_many, w.dir, sorted(files), 600, 6)
+            xtxt = open(os.path.join(core.VERIF, 'coq', 'props', 'C16xform.v')).read()
+            texts['C16xform.v'] = xtxt
+            w.write('C16xform.v', xtxt)
+            xres = core.coqc(w.dir, 'C16xform.v')          # the generated C16_xform.v depends on it
+
+            def _compile_all(names=sorted(files)):
+                r = core.coqc_many(w.dir, names, 600, 6)
+                r['C16xform.v'] = xres
+                return r
+            coq_future = pool.submit(_compile_all)
 
         # 3. sessions: corpus first, then templates aimed at broken obligations, then random
         bad_keys = [k for k in T.key_order if k not in T.cleared] if T else []
@@ -1442,6 +1531,16 @@ def run(tier='quick', replay=None):
             if conf == obs or (st['op'] == 'derive' and not conf.startswith('ERR:') and not obs.startswith('ERR:') and lines_of(conf) == lines_of(obs)):
                 return None, 'counterexample %s not confirmed against a brand-new interpreter' % key
             culprits = []
+            if key.startswith('history:xform:') and T is not None:
+                # a cached result served to a call with other (effective) options: name the option
+                tc = [t for t in T.transformers if t['cls'] == XF_CLASS.get(key.split(':')[2])]
+                opts = {o for x in small['steps'] if x['op'] == 'xform' for o in x['t'].get('kw', {})}
+                for t in tc:
+                    mm = sorted({m['opt'] for m in t['default_mismatch']} & opts)
+                    if mm:
+                        key = 'transformkey:%s:default:%s' % (t['cls'], ','.join(mm))
+                    elif sorted(set(t['missing']) & opts):
+                        key = 'transformkey:%s:%s' % (t['cls'], ','.join(sorted(set(t['missing']) & opts)))
             if key.startswith('history:') and key not in known_keys:
                 # causes with a structural fingerprint
                 anon = lambda t: re.sub(r'(_?nodeanon|[A-Za-z]+anon)#?\d+', '@', t)
